@@ -262,4 +262,28 @@ def lossNonStatioSpinn (d : Nat)
     boundary none
     (ic.map fun (w, u0, uAt0) => icPDE w u0 uAt0 (gridPts d (inside.map (·.2))))
 
+/-! ### separable networks with a dynamic loss
+
+`dynamic_loss_apply`, SPINN branch: `residuals = dyn_loss(*batches, u, params)` is the grid of the
+residual over the tensor product of the coordinate columns of the inside batch (time column first for a
+non-stationary loss), and the term is `jnp.mean(jnp.sum(loss_weight * residuals**2, axis=-1))` over that
+whole grid. -/
+
+def lossStatioSpinnDyn (d : Nat) (dyn : Option (Weight × (List Rat → List Rat)))
+    (norm : Option (Rat × Rat × (List Rat → List Rat) × List (List Rat)))
+    (boundary : Option Rat) (inside : List (List Rat)) : Rat × PdeTerms :=
+  evalStatio (dyn.map fun (w, r) => dynTerm w r (gridPts d inside))
+    (norm.map fun (w, L, u, samples) => normStatio w L none u (gridPts d samples))
+    boundary none
+
+def lossNonStatioSpinnDyn (d : Nat) (dyn : Option (Weight × (List Rat → List Rat)))
+    (norm : Option (Rat × Rat × (Rat → List Rat → List Rat) × List (List Rat)))
+    (boundary : Option Rat) (ic : Option (Weight × (List Rat → List Rat) × (List Rat → List Rat)))
+    (inside : List (Rat × List Rat)) : Rat × PdeTerms :=
+  evalNonStatio (dyn.map fun (w, r) => dynTerm w r (gridPts (d + 1) (inside.map fun tx => tx.1 :: tx.2)))
+    (norm.map fun (w, L, u, samples) =>
+      normNonStatio w L none u (repTimes (inside.map (·.1)) samples.length) (gridPts d samples))
+    boundary none
+    (ic.map fun (w, u0, uAt0) => icPDE w u0 uAt0 (gridPts d (inside.map (·.2))))
+
 end Jinns.LossTerms
